@@ -2,22 +2,152 @@
 package server
 
 import (
+	"context"
+	"sync"
+	"time"
+
 	"github.com/imoore76/ldlm/lock"
 	cl "github.com/imoore76/ldlm/server/clientlock"
 	"github.com/imoore76/ldlm/timermap"
 )
 
 func (l *LockServer) VerifManager() *lock.Manager {
-	m, _ := l.lockMgr.(*lock.Manager)
+	lm := l.lockMgr
+	if d, ok := lm.(verifLockMgr); ok {
+		lm = d.lockManager
+	}
+	m, _ := lm.(*lock.Manager)
 	return m
 }
 
 func (l *LockServer) VerifSessionLocks() map[string][]cl.Lock { return l.sessionMgr.Locks() }
 
 func (l *LockServer) VerifTimerKeys() []string {
-	tm, ok := l.lockTimerMgr.(*timermap.TimerMap)
+	t := l.lockTimerMgr
+	if d, ok := t.(verifTimerMgr); ok {
+		t = d.timerManager
+	}
+	tm, ok := t.(*timermap.TimerMap)
 	if !ok {
 		return nil
 	}
 	return tm.VerifKeys()
 }
+
+// ---- manager-call tracing (trace validation of the interleaving models)
+
+// VerifMgrEvent is the invocation ("inv") or the return ("ret") of one call the lock server makes into
+// one of its three managers.
+type VerifMgrEvent struct {
+	Phase  string // inv | ret
+	Id     int
+	Method string // lock.Unlock, lock.TryLock, lock.Lock, timer.Add, timer.Remove, timer.Reset, sess.AddLock, sess.RemoveLock, sess.DestroySession
+	Name   string
+	Key    string // lock key, or the timer-map key for timer.*
+	Sid    string
+	Ok     bool
+	Err    string
+}
+
+type verifTracer struct {
+	rec func(VerifMgrEvent)
+	mu  sync.Mutex
+	n   int
+}
+
+func (t *verifTracer) inv(method, name, key, sid string) int {
+	t.mu.Lock()
+	t.n++
+	id := t.n
+	t.mu.Unlock()
+	t.rec(VerifMgrEvent{Phase: "inv", Id: id, Method: method, Name: name, Key: key, Sid: sid})
+	return id
+}
+
+func (t *verifTracer) ret(id int, method string, ok bool, err error) {
+	e := VerifMgrEvent{Phase: "ret", Id: id, Method: method, Ok: ok}
+	if err != nil {
+		e.Err = err.Error()
+	}
+	t.rec(e)
+}
+
+type verifLockMgr struct {
+	lockManager
+	t *verifTracer
+}
+
+func (d verifLockMgr) Lock(name string, key string, size int32, ctx context.Context) error {
+	id := d.t.inv("lock.Lock", name, key, "")
+	err := d.lockManager.Lock(name, key, size, ctx)
+	d.t.ret(id, "lock.Lock", err == nil, err)
+	return err
+}
+func (d verifLockMgr) TryLock(name string, key string, size int32) (bool, error) {
+	id := d.t.inv("lock.TryLock", name, key, "")
+	ok, err := d.lockManager.TryLock(name, key, size)
+	d.t.ret(id, "lock.TryLock", ok, err)
+	return ok, err
+}
+func (d verifLockMgr) Unlock(name string, key string) (bool, error) {
+	id := d.t.inv("lock.Unlock", name, key, "")
+	ok, err := d.lockManager.Unlock(name, key)
+	d.t.ret(id, "lock.Unlock", ok, err)
+	return ok, err
+}
+
+type verifSessMgr struct {
+	sessionManager
+	t *verifTracer
+}
+
+func (d verifSessMgr) DestroySession(sid string) []cl.Lock {
+	id := d.t.inv("sess.DestroySession", "", "", sid)
+	r := d.sessionManager.DestroySession(sid)
+	d.t.ret(id, "sess.DestroySession", len(r) > 0, nil)
+	return r
+}
+func (d verifSessMgr) AddLock(name string, key string, size int32, sid string) {
+	id := d.t.inv("sess.AddLock", name, key, sid)
+	d.sessionManager.AddLock(name, key, size, sid)
+	d.t.ret(id, "sess.AddLock", true, nil)
+}
+func (d verifSessMgr) RemoveLock(name string, key string, sid string) {
+	id := d.t.inv("sess.RemoveLock", name, key, sid)
+	d.sessionManager.RemoveLock(name, key, sid)
+	d.t.ret(id, "sess.RemoveLock", true, nil)
+}
+
+type verifTimerMgr struct {
+	timerManager
+	t *verifTracer
+}
+
+func (d verifTimerMgr) Add(key string, onTimeout func(), dur time.Duration) {
+	id := d.t.inv("timer.Add", "", key, "")
+	d.timerManager.Add(key, onTimeout, dur)
+	d.t.ret(id, "timer.Add", true, nil)
+}
+func (d verifTimerMgr) Remove(key string) bool {
+	id := d.t.inv("timer.Remove", "", key, "")
+	ok := d.timerManager.Remove(key)
+	d.t.ret(id, "timer.Remove", ok, nil)
+	return ok
+}
+func (d verifTimerMgr) Reset(key string, dur time.Duration) (bool, error) {
+	id := d.t.inv("timer.Reset", "", key, "")
+	ok, err := d.timerManager.Reset(key, dur)
+	d.t.ret(id, "timer.Reset", ok, err)
+	return ok, err
+}
+
+// VerifTrace reports every call into the three managers from now on (invocation and return).
+func (l *LockServer) VerifTrace(rec func(VerifMgrEvent)) {
+	t := &verifTracer{rec: rec}
+	l.lockMgr = verifLockMgr{l.lockMgr, t}
+	l.sessionMgr = verifSessMgr{l.sessionMgr, t}
+	l.lockTimerMgr = verifTimerMgr{l.lockTimerMgr, t}
+}
+
+// VerifTimerKey is the lease-timer key of a hold.
+func VerifTimerKey(name, key string) string { return lockTimerKey(name, key) }
